@@ -8,11 +8,21 @@ from harness import gen
 from harness.framework import Suite
 
 PID = "C03"
-LEAN_MODS = ["SwcVerif.Props.C03", "SwcVerif.Props.C03Cat"]
+LEAN_MODS = ["SwcVerif.Props.C03", "SwcVerif.Props.C03Cat", "SwcVerif.Props.C03Gen"]
+# Gen/AlgoCtor.lean: `_copy_and_apply` and the copying spellings of swc_utils/normalizer.py, regenerated on every run over a heap of frame
+# objects (the in-place procedures they apply live in AlgoNormalizer / AlgoSort / AlgoRepair, on AlgoCheckers / AlgoDsu)
+TRANSLATE_ALGO = ["AlgoDsu", "AlgoCheckers", "AlgoNormalizer", "AlgoSort", "AlgoRepair", "AlgoCtor"]
+DRIVER_FILES = ["SwcVerif/Model/AlgoRunCtor.lean", "SwcVerif/Model/PyCtor.lean", "SwcVerif/Model/AlgoRunRepair.lean"]
 THEOREMS = [
     "C03.wf_of_sorted", "C03.sort_wf", "C03.subtree_wf", "C03.prune_wf", "C03.redirect_wf", "C03.redirect_nosort_root_position",
     "C03.op_wf", "C03.pipeline_wf", "C03.inputs_untouched", "Represent.wf_represented", "Represent.represented_wf", "Represent.wf_subtree_represented",
     "C03.op2_wf", "C03.pipeline2_wf",
+    # the frame condition of the copying normalizer spellings, about the code as generated on this run (Gen/AlgoCtor.lean)
+    "RefineCtor.get?_old", "RefineCtor.get?_fresh", "RefineCtor.apply_new", "RefineCtor.copy_and_apply_spec", "RefineCtor.copy_and_apply_lift",
+    "RefineCtor.pure_of_eq", "RefineCtor.mark_roots_as_somas_eq", "RefineCtor.reset_index_eq", "RefineCtor.sort_nodes_eq",
+    "RefineCtor.link_roots_to_nearest_eq",
+    "C03.generated_copy_and_apply_pure", "C03.generated_copy_and_apply_eq", "C03.generated_mark_roots_as_somas_pure", "C03.generated_reset_index_pure",
+    "C03.generated_sort_nodes_pure", "C03.generated_link_roots_to_nearest_pure", "C03.generated_copying_eq",
 ]
 TRUSTED = ["the per-operation models of C05 (sort), C06 (subtree / prune / cut), C07 (re-root, concatenate), C09 (heap: copies allocate), C12 (transforms touch only x, y, z), "
            "each tied to the code by its own correspondence suite; this property's suite checks the composition on the real library"]
@@ -651,7 +661,112 @@ class Pipeline(Suite):
         return f"{case.get('family', 'random')}/len{min(len(case['ops']) // 3 * 3, 12)}{wide}"
 
 
-SUITES = [Pipeline()]
+# ---- the copying spellings of the table normalizer (`swc_utils.mark_roots_as_somas` / `link_roots_to_nearest` / `reset_index` / `sort_nodes`) ------
+BYSTANDER = "7,8 / -1,7 / 1,2 / 4,4"      # object 0 of the heap the driver op `gcopying` starts from (Model/AlgoRunCtor.lean)
+FCOLS = ["id", "type", "x", "y", "z", "r", "pid"]
+
+
+def _frame_cols(df):
+    return {"ids": [int(v) for v in df["id"]], "pids": [int(v) for v in df["pid"]], "types": [int(v) for v in df["type"]],
+            "rs": [int(round(4 * float(v))) for v in df["r"]], "x": [int(v) for v in df["x"]], "y": [int(v) for v in df["y"]],
+            "z": [int(v) for v in df["z"]]}
+
+
+class CopyingFrames(Suite):
+    """a copying spelling returns a new table; the table handed in is as it was, shares no storage with the result, and edits of the result
+    afterwards do not reach it"""
+    name = "c03.copying"
+    case_timeout = 20
+
+    def cases(self, rng, tier, widen):
+        out = []
+        for _ in range(120 if (tier == "thorough" or widen) else 40):
+            n = rng.randint(1, 9)
+            nroots = rng.randint(1, min(3, n))
+            base = rng.choice([0, 0, 1, 5])
+            pids = []
+            roots = sorted(rng.sample(range(n), nroots))
+            if rng.random() < 0.7:
+                roots[0] = 0
+                roots = sorted(set(roots))
+            for i in range(n):
+                pids.append(-1 if i in roots else None)
+            # a forest: every non-root hangs below an earlier-decided node of a random order (no cycles)
+            order = roots + [i for i in rng.sample(range(n), n) if i not in roots]
+            for k, i in enumerate(order):
+                if pids[i] is None:
+                    pids[i] = order[rng.randrange(k)] + base
+            pts = rng.sample([(x, y, z) for x in range(-6, 7) for y in range(-3, 4) for z in range(-1, 2)], n)
+            out.append({"class": f"roots{len(roots)}/base{base}", "ids": [i + base for i in range(n)], "pids": pids,
+                        "types": [rng.randint(0, 7) for _ in range(n)], "xyz": [list(p) for p in pts],
+                        "r": [rng.randint(1, 16) / 4 for _ in range(n)]})
+        return out
+
+    def run(self, case):
+        import pandas as pd
+        from swcgeom.core.swc_utils import link_roots_to_nearest, mark_roots_as_somas, reset_index, sort_nodes
+
+        def frame():
+            x, y, z = zip(*case["xyz"])
+            return pd.DataFrame({"id": np.array(case["ids"], dtype=np.int32), "type": np.array(case["types"], dtype=np.int32),
+                                 "x": np.array(x, dtype=np.float32), "y": np.array(y, dtype=np.float32), "z": np.array(z, dtype=np.float32),
+                                 "r": np.array(case["r"], dtype=np.float32), "pid": np.array(case["pids"], dtype=np.int32)})
+
+        rows = []
+        with warnings.catch_warnings():
+            warnings.simplefilter("ignore")
+            for op, fn in (("somas", mark_roots_as_somas), ("somas/ut=5", lambda d: mark_roots_as_somas(d, 5)),
+                           ("somas/ut=F", lambda d: mark_roots_as_somas(d, update_type=False)), ("nearest", link_roots_to_nearest),
+                           ("reset", reset_index), ("sort", sort_nodes)):
+                src = frame()
+                before = _frame_cols(src)
+                leak = False
+                try:
+                    r = fn(src)
+                    got = _frame_cols(r)
+                    shares = (r is src) or any(np.shares_memory(r[c].to_numpy(), src[c].to_numpy()) for c in r.columns)
+                    for c in r.columns:          # later edits of the result, in place where the array allows it
+                        try:
+                            r[c].to_numpy()[...] = 99
+                        except ValueError:       # a read-only view (copy-on-write pandas)
+                            pass
+                        r[c] = r[c] * 0 + 98
+                        r.loc[:, c] = 97
+                    leak = _frame_cols(src) != before
+                except Exception as e:  # noqa: BLE001
+                    got, shares = {"exc": type(e).__name__}, False
+                rows.append([op, before, got, _frame_cols(src), bool(shares), bool(leak)])
+        return {"rows": rows}
+
+    def lines(self, case, res):
+        fr = lambda c: " / ".join(gen.ints(c[k]) for k in ("ids", "pids", "types", "rs"))
+        out = []
+        for op, before, got, after, _, _ in res.get("rows", []):
+            o, _, ut = op.partition("/ut=")
+            line = (f"gcopying op={o} ids={gen.ints(before['ids'])} pids={gen.ints(before['pids'])} types={gen.ints(before['types'])} rs={gen.ints(before['rs'])}"
+                    + ("" if ut == "F" else f" ut={ut or 1}" if o == "somas" else "")
+                    + (f" x={gen.ints(before['x'])} y={gen.ints(before['y'])} z={gen.ints(before['z'])}" if o == "nearest" else ""))
+            # the definition generated from the copying spelling on this run, on the heap [bystander, input]:
+            # result frame | input frame after the call | bystander after the call | input ref, result ref, heap size
+            out.append((line, "E" if "exc" in got else f"{fr(got)} | {fr(after)} | {BYSTANDER} | 1 2 3"))
+        return out
+
+    def oracle(self, case, res):
+        out = []
+        for op, before, got, after, shares, leak in res.get("rows", []):
+            if after != before:
+                out.append((f"copying-mutates/{op}", f"{op}: the table handed in changed: {before} → {after}"))
+            if shares:
+                out.append((f"copying-shares/{op}", f"{op}: the result shares storage with the table handed in"))
+            if leak:
+                out.append((f"copying-leaks/{op}", f"{op}: an edit of the result reached the table handed in"))
+        return out[:3]
+
+    def nontrivial(self, case, res):
+        return len(case["ids"]) >= 2
+
+
+SUITES = [Pipeline(), CopyingFrames()]
 TECHNIQUE = ("Lean 4 theorem by induction over operation lists: each topology-level operation model (sort, subtree, prune, re-root, geometric, round trip, and — C03Cat — cat_tree with an arbitrary second tree in both translate modes) maps a "
              "well-formed parent list to a well-formed one (sorted where documented), built from the theorems of C05/C06/C07 and the representation lemma; heap-level "
              "freshness from C09 + pipelines of the real operations with well-formedness, input hashes and np.shares_memory checked after every step: random "
